@@ -1,15 +1,50 @@
 (* Check/C18Check.v -- correspondence and oracle for C18 (zero-crossing search). *)
-From PraatIO Require Export Base.Prelude Audio.ZeroCross.
+From PraatIO Require Export Check.Common Textgrid.TgModel Audio.ZeroCross.
+From PraatIO Require Export Textgrid.TgZc.
 Open Scope Z_scope.
 
 Inductive C18case :=
 (* findNearestZeroCrossing(t, step) on a recording with samples s; K ticks per sample;
    exact = the time grid is exact in binary64, so implementation and model must agree *)
-| ZC (K : Z) (s : list Z) (t st : Z) (exact : bool) (out : res Z).
+| ZC (K : Z) (s : list Z) (t st : Z) (exact : bool) (out : res Z)
+(* tgBoundariesToZeroCrossings: the textgrid that came back *)
+| TgZcC (K : Z) (s : list Z) (st : Z) (adjP adjI : bool) (g : tg) (out : res tg).
+
+(* does the search for time t end in a tie: a candidate on either side at exactly the same distance?  The recordings of
+   the TgZcC cases have non-dyadic rates (the script uses the default step of 0.002 s, a whole number of samples only at
+   multiples of 500 Hz), where the implementation compares two rounded binary64 distances: an exact tie is decided by
+   rounding there, so such cases are not compared with the model *)
+Fixpoint zc_loop_tie (fuel : nat) (K dur st t left right : Z) (s : list Z) : bool :=
+  match fuel with
+  | O => false
+  | S f =>
+      let l := iter_zc K dur s left (0 <? left) (st + K) true in
+      let r := iter_zc K dur s right (right + st <? dur) (st + K) false in
+      match l, r with
+      | Some x, Some y => Z.abs (x - t) =? Z.abs (y - t)
+      | Some _, None | None, Some _ => false
+      | None, None => if (left <? 0) && (dur <? right) then false
+                      else zc_loop_tie f K dur st t (left - st) (right + st) s
+      end
+  end.
+
+Definition zc_tie (K : Z) (s : list Z) (t st : Z) : bool :=
+  let dur := Z.of_nat (length s) * K in
+  if st <? 2 * K then false
+  else zc_loop_tie (Z.to_nat (Z.max (t + 1) (dur - t + 1)) + 1) K dur st t t t s.
+
+Definition tier_times (adjP adjI : bool) (t : tier) : list Z :=
+  match t with
+  | TI i => if adjI then flat_map (fun iv => [istart iv; iend iv]) (ients i) else []
+  | TP p => if adjP then map ptime (pents p) else []
+  end.
 
 Definition C18corr (c : C18case) : bool :=
   match c with
   | ZC K s t st exact out => if exact then res_eqb Z.eqb (find_zc K s t st) out else true
+  | TgZcC K s st adjP adjI g out =>
+      existsb (fun t => zc_tie K s t st) (flat_map (tier_times adjP adjI) (tiers g))
+      || res_eqb tg_eqb (tg_zc K s st adjP adjI g) out
   end.
 
 Definition C18oracle (c : C18case) : bool :=
@@ -21,7 +56,39 @@ Definition C18oracle (c : C18case) : bool :=
                 && (x mod K =? 0) && crossingb s (Z.to_nat (x / K))
       | Err e => if st <? 2 * K then err_eqb e ArgumentError else err_eqb e FindZeroCrossingError
       end
+  | TgZcC K s st adjP adjI g out =>
+      (* only timestamps change, each to a crossing on a sample; tier order, entry counts and labels stay
+         (points that moved past each other may swap places) *)
+      match out with
+      | Err _ => true
+      | Ok g' =>
+          (fix go (l l' : list tier) : bool :=
+             match l, l' with
+             | [], [] => true
+             | t :: r, t' :: r' =>
+                 text_eqb (tname t) (tname t')
+                 && (match t, t' with
+                     | TI i, TI i' =>
+                         if adjI then (length (ients i) =? length (ients i'))%nat
+                                      && forallb (fun lab => existsb (text_eqb lab) (map ilabel (ients i'))) (map ilabel (ients i))
+                                      && forallb (fun iv => (istart iv mod K =? 0) && (iend iv mod K =? 0)
+                                                            && crossingb s (Z.to_nat (istart iv / K)) && crossingb s (Z.to_nat (iend iv / K))) (ients i')
+                         else tier_eqb t t'
+                     | TP p, TP p' =>
+                         if adjP then (length (pents p) =? length (pents p'))%nat
+                                      && forallb (fun lab => existsb (text_eqb lab) (map plabel (pents p'))) (map plabel (pents p))
+                                      && forallb (fun pt => (ptime pt mod K =? 0) && crossingb s (Z.to_nat (ptime pt / K))) (pents p')
+                         else tier_eqb t t'
+                     | _, _ => false
+                     end)
+                 && go r r'
+             | _, _ => false
+             end) (tiers g) (tiers g')
+      end
   end.
 
 Definition C18hyp (c : C18case) : bool :=
-  match c with ZC K s t st _ _ => (0 <? K) && (0 <=? t) && (t <=? Z.of_nat (length s) * K) end.
+  match c with
+  | ZC K s t st _ _ => (0 <? K) && (0 <=? t) && (t <=? Z.of_nat (length s) * K)
+  | TgZcC _ _ _ _ _ _ _ => true
+  end.
